@@ -77,8 +77,12 @@ func TestVFHandlerProgress(t *testing.T) {
 				for i := 0; i < 40 && !stuck.Load(); i++ {
 					m := []string{"m1", "m2"}[rng.Intn(2)]
 					var req any = api.GenerateRequest{Model: m, Prompt: "hi", Stream: &f}
-					if rng.Intn(6) == 0 {
+					switch rng.Intn(8) {
+					case 0:
 						req = api.GenerateRequest{Model: m, KeepAlive: &api.Duration{Duration: 0}} // explicit unload
+					case 1, 2:
+						// "keep this model loaded for ever": it must still make room when another model is asked for
+						req = map[string]any{"model": m, "prompt": "hi", "stream": false, "keep_alive": -1}
 					}
 					if rng.Intn(2) == 0 { // a client that gives up
 						ctx, cancel := context.WithTimeout(context.Background(), time.Duration(rng.Intn(12000)+200)*time.Microsecond)
@@ -110,7 +114,8 @@ func TestVFHandlerProgress(t *testing.T) {
 		// afterwards: a patient request per model is answered, and then nothing stays loaded
 		for _, m := range []string{"m1", "m2"} {
 			ctx, cancel := context.WithTimeout(context.Background(), patience)
-			code, err := v.doCtx(ctx, "POST", "/api/generate", api.GenerateRequest{Model: m, Prompt: "hi", Stream: &f})
+			// (zero keep-alive: whatever keep-alive earlier requests asked for, the model goes once this one is done)
+			code, err := v.doCtx(ctx, "POST", "/api/generate", map[string]any{"model": m, "prompt": "hi", "stream": false, "keep_alive": 0})
 			cancel()
 			if err != nil {
 				recs = append(recs, map[string]any{"ev": "unanswered", "t": round, "model": m, "waited_ms": patience.Milliseconds(), "err": err.Error(), "final": true})
